@@ -4,6 +4,7 @@ CONSTANTS
   MaxVer = 1000000
   MaxPin = 1000
   FixDealloc = TRUE
+  Races = FALSE
 SPECIFICATION TSpec
 INVARIANT Done
 CHECK_DEADLOCK FALSE
